@@ -55,7 +55,7 @@ def main(argv):
     budget = float(os.environ.get("LCVERIF_SHARD_BUDGET_S", "0") or 0)
     truncated = False
     for k, case in enumerate(mod.cases(tier, seed)):
-        if k % n != idx:
+        if ((k * 0x9E3779B1) >> 7) % n != idx:      # scatter, so periodic heavy cases do not pile up on one shard
             continue
         if budget and time.time() - t0 > budget:
             truncated = True
